@@ -202,6 +202,163 @@ Proof.
   apply run_html_view in E. destruct E as [v [Hv' _]]. congruence.
 Qed.
 
+(* ---- the output tree: the sequence of exclusive creates against "the first
+   entry of a path decides" ---- *)
+
+Definition tree_add (t : tree) (e : bytes * option bytes) : tree :=
+  if tree_has t (fst e) then t else t ++ [e].
+
+Lemma write_log_add t p c : write_log t p c = tree_add t (p, Some c).
+Proof. reflexivity. Qed.
+Lemma mkdir_p_add t p : mkdir_p t p = tree_add t (p, None).
+Proof. reflexivity. Qed.
+Lemma mkdir_x_add t p t' : mkdir_x t p = Some t' -> t' = tree_add t (p, None).
+Proof.
+  unfold mkdir_x, tree_add. cbn [fst]. destruct (tree_has t p); [discriminate|]. now intros [= <-].
+Qed.
+
+Lemma write_all_add dir fs : forall t,
+  write_all t dir fs = fold_left tree_add (map (fun f => (pjoin dir (fst f), Some (snd f))) fs) t.
+Proof.
+  induction fs as [|[n c] fs IH]; intros t; [reflexivity|]. cbn [write_all map fold_left]. now rewrite IH.
+Qed.
+
+Lemma rows_loop_tree dir time e rows : forall acc t res t',
+  rows_loop dir time e rows acc t = Some (res, t') ->
+  exists srs, all_some (map (srun_of e) (filter is_suite_row rows)) = Some srs /\
+    t' = fold_left tree_add
+           (map (fun sr => (pjoin dir (sr_log sr),
+                            Some (spec_extract (srun_status sr) (sr_content sr)))) srs) t.
+Proof.
+  induction rows as [|r rows IH]; intros acc t res t' H.
+  - cbn in H. injection H as <- <-. exists []. split; reflexivity.
+  - cbn [rows_loop] in H. cbn [filter]. unfold is_suite_row at 1.
+    destruct (is_regress_step (str_field r f_name)) eqn:Es; cbn [negb] in H.
+    + cbn [map all_some]. unfold srun_of at 1.
+      destruct (lookup_log e (str_field r f_log)) as [| |c] eqn:El; try discriminate.
+      apply IH in H. destruct H as [srs [Ha Ht]]. rewrite Ha.
+      eexists. split; [reflexivity|]. rewrite Ht. cbn [map fold_left].
+      unfold srun_status. cbn [sr_log sr_exit sr_content].
+      now rewrite write_log_add, extract_spec, classify_spec.
+    + apply IH in H. exact H.
+Qed.
+
+Lemma fold_add_app a b t : fold_left tree_add (a ++ b) t = fold_left tree_add b (fold_left tree_add a t).
+Proof. apply fold_left_app. Qed.
+
+Lemma parse_invocation_tree arch prev e st st' d :
+  parse_invocation arch prev e st = Some (st', d) ->
+  exists I, sinv_of arch prev e = Some I /\
+    st_tree st' = fold_left tree_add (spec_tree_inv I) (st_tree st).
+Proof.
+  unfold parse_invocation, sinv_of. intros H.
+  destruct (e_step e) as [content|]; [|discriminate].
+  destruct (parse_file content) as [[|first rows]|]; try discriminate.
+  destruct (find_by_name (first :: rows) name_end) as [last|]; [|discriminate].
+  destruct (mkdir_x _ _) as [t2|] eqn:E2; [|discriminate].
+  destruct (mkdir_x _ (pjoin (pjoin arch (e_name e)) name_diff)) as [t5|] eqn:E5; [|discriminate].
+  destruct (rows_loop _ _ _ _ _ _) as [[rs t7]|] eqn:ER; [|discriminate].
+  apply rows_loop_tree in ER. destruct ER as [srs [Ha Ht]].
+  fold is_suite_row. rewrite Ha.
+  injection H as <- <-. eexists. split; [reflexivity|].
+  cbn [st_tree]. unfold spec_tree_inv, sinv_dir.
+  cbn [si_arch si_date si_dmesg si_comment si_patches si_runs].
+  apply mkdir_x_add in E2, E5. rewrite mkdir_p_add in E2.
+  rewrite !fold_add_app. cbn [fold_left]. rewrite <- E2.
+  rewrite Ht, write_all_add. f_equal. f_equal. rewrite E5. f_equal.
+  destruct (assoc name_dmesg (all_files e)); destruct (assoc name_comment (all_files e));
+    cbn [opt_file fold_left]; now rewrite ?write_log_add.
+Qed.
+
+Lemma arch_loop_tree arch es : forall prev st st',
+  arch_loop arch prev es st = Some st' ->
+  exists v, view_arch arch prev es = Some v /\
+    st_tree st' = fold_left tree_add (flat_map spec_tree_inv v) (st_tree st).
+Proof.
+  induction es as [|e es IH]; intros prev st st' H.
+  - cbn in H. injection H as <-. exists []. split; reflexivity.
+  - cbn [arch_loop] in H.
+    destruct (parse_invocation arch prev e st) as [[st1 d]|] eqn:EP; [|discriminate].
+    pose proof (parse_invocation_view _ _ _ _ _ _ EP) as [I0 [HI0 [Hd _]]].
+    apply parse_invocation_tree in EP. destruct EP as [I [HI Ht]].
+    assert (I0 = I) by congruence. subst I0 d.
+    apply IH in H. destruct H as [v [Hv Ht']].
+    exists (I :: v). cbn [view_arch]. rewrite HI, Hv. split; [reflexivity|].
+    rewrite Ht', Ht. cbn [flat_map]. now rewrite fold_add_app.
+Qed.
+
+Lemma parse_all_tree q inp : forall st st',
+  parse_all q inp st = Some st' ->
+  exists v, view (walk_dirs q) inp = Some v /\
+    st_tree st' = fold_left tree_add (flat_map spec_tree_inv v) (st_tree st).
+Proof.
+  induction inp as [|a inp IH]; intros st st' H.
+  - cbn in H. injection H as <-. exists []. split; reflexivity.
+  - cbn [parse_all] in H.
+    destruct (arch_loop _ _ _ _) as [st1|] eqn:EA; [|discriminate].
+    apply arch_loop_tree in EA. destruct EA as [v1 [Hv1 Ht1]].
+    apply IH in H. destruct H as [v2 [Hv2 Ht2]].
+    exists (v1 ++ v2). cbn [view]. rewrite Hv1, Hv2. split; [reflexivity|].
+    rewrite Ht2, Ht1, flat_map_app, fold_add_app. reflexivity.
+Qed.
+
+Lemma beq_sym a b : beq a b = beq b a.
+Proof. destruct (beq_spec a b) as [E|E]; destruct (beq_spec b a) as [E'|E']; congruence. Qed.
+
+Lemma fold_add_first_wins ops : forall t seen,
+  (forall p, existsb (beq p) seen = tree_has t p) ->
+  fold_left tree_add ops t = t ++ first_wins seen ops.
+Proof.
+  induction ops as [|[p c] ops IH]; intros t seen Hs; cbn [fold_left first_wins].
+  - now rewrite app_nil_r.
+  - unfold tree_add at 2. cbn [fst]. rewrite (Hs p). destruct (tree_has t p) eqn:E.
+    + now apply IH.
+    + rewrite (IH (t ++ [(p, c)]) (p :: seen)).
+      * now rewrite <- app_assoc.
+      * intros x. cbn [existsb]. unfold tree_has. rewrite existsb_app. cbn [existsb fst].
+        rewrite orb_false_r, Hs. unfold tree_has. rewrite orb_comm. f_equal. apply beq_sym.
+Qed.
+
+(* the output tree of a page is the specified one *)
+Lemma page_tree q inp pg : run_html q inp = Some pg ->
+  exists v, view (walk_dirs q) inp = Some v /\ p_tree pg = spec_tree v.
+Proof.
+  unfold run_html. destruct inp as [|a inp]; [discriminate|].
+  destruct (parse_all q (a :: inp) _) as [st|] eqn:EP; [|discriminate].
+  intros H. injection H as <-. apply parse_all_tree in EP. destruct EP as [v [Hv Ht]].
+  exists v. split; [exact Hv|]. unfold render. cbn [p_tree st_tree] in *.
+  rewrite Ht. unfold spec_tree. now rewrite (fold_add_first_wins _ [] []).
+Qed.
+
+(* ... hence every run's link leads to a file of the tree: the copy of that
+   run's log, unless an earlier entry of the same invocation has the same path *)
+Lemma first_wins_in ops : forall seen p c,
+  In (p, c) ops -> existsb (beq p) seen = false ->
+  exists c', In (p, c') (first_wins seen ops).
+Proof.
+  induction ops as [|[p0 c0] ops IH]; intros seen p c Hin Hs; [destruct Hin|].
+  cbn [first_wins]. destruct (existsb (beq p0) seen) eqn:E0.
+  - destruct Hin as [Heq|Hin]; [injection Heq as -> ->; congruence|]. now apply (IH seen p c).
+  - destruct (beq_spec p p0) as [->|Hne].
+    + exists c0. now left.
+    + destruct Hin as [Heq|Hin]; [injection Heq as -> ->; congruence|].
+      destruct (IH (p0 :: seen) p c Hin) as [c' Hc'].
+      * cbn [existsb]. rewrite Hs. destruct (beq_spec p p0); [congruence|reflexivity].
+      * exists c'. now right.
+Qed.
+
+Lemma links_exist q inp pg : run_html q inp = Some pg ->
+  exists v, view (walk_dirs q) inp = Some v /\
+    forall I sr, In I v -> In sr (si_runs I) ->
+      exists c, In (pjoin (pjoin (si_arch I) (si_date I)) (sr_log sr), c) (p_tree pg).
+Proof.
+  intros H. destruct (page_tree q inp pg H) as [v [Hv Ht]]. exists v. split; [exact Hv|].
+  intros I sr HI Hsr. rewrite Ht. unfold spec_tree.
+  apply (first_wins_in _ [] _ (Some (spec_extract (srun_status sr) (sr_content sr)))); [|reflexivity].
+  apply in_flat_map. exists I. split; [exact HI|]. unfold spec_tree_inv.
+  repeat (apply in_or_app; right). apply in_map_iff. exists sr. split; [reflexivity|exact Hsr].
+Qed.
+
 (* ---- the suites map: find_suite / add_run against a comprehension ---- *)
 
 Definition runs_for (n : bytes) (nrs : list (bytes * run)) : list run :=
@@ -1102,4 +1259,51 @@ Proof.
   intros Hq H. destruct (cells_partial q inp pg Hq H) as [v [vs [[Hv _] Hr]]].
   exists v. split; [exact Hv|]. intros Hd Ho S row Hin.
   destruct (Hr Hd Ho S row Hin) as [cells [-> _]]. now exists cells.
+Qed.
+
+(* ---- the oracle says what it is meant to say ---- *)
+
+Lemma clause_nil (b : bool) (k : N) rest : (if b then [] else [k]) ++ rest = [] -> b = true /\ rest = [].
+Proof. destruct b; cbn; [auto|discriminate]. Qed.
+
+Lemma spec_ok_reject inp o :
+  spec_ok inp o = true -> view (walk_dirs exec_qsorts) inp = None -> o_exit o = 1.
+Proof.
+  unfold spec_ok, spec_check. intros H Hv. rewrite Hv in H.
+  destruct (N.eqb_spec (o_exit o) 1); [assumption|discriminate].
+Qed.
+
+Lemma spec_ok_sound inp o v :
+  spec_ok inp o = true -> view (walk_dirs exec_qsorts) inp = Some v ->
+  inp <> [] -> nodupb (map sinv_dir v) = true ->
+  o_exit o = 0 /\
+  exists cols, all_some (map (find_inv v) (o_cols o)) = Some cols /\
+    List.length cols = List.length v /\ nodupb (map sinv_dir cols) = true /\
+    sorted_desc (map si_time cols) = true /\
+    forallb (fun p => column_ok (fst p) (snd p)) (combine cols (o_cols o)) = true /\
+    forallb (fun p => rate_ok (fst p) (snd p)) (combine cols (o_cols o)) = true /\
+    list_eqb beq (map or_suite (o_rows o)) (isort (row_le v) (spec_suites v)) = true /\
+    (forall r, In r (o_rows o) ->
+       beq (or_href r) (suite_href (or_suite r)) = true /\
+       list_all2 ocell_ok (spec_row cols (or_suite r)) (or_cells r) = true /\
+       (List.length (or_cells r) <= List.length cols)%nat) /\
+    tree_ok (spec_tree v) (o_tree o) = true.
+Proof.
+  unfold spec_ok, spec_check. intros H Hv Hne Hnd. rewrite Hv in H.
+  destruct inp as [|a inp]; [congruence|]. cbn [orb] in H. rewrite Hnd in H. cbn [negb] in H.
+  destruct (N.eqb_spec (o_exit o) 0) as [E0|E0]; cbn [negb] in H; [|discriminate].
+  split; [exact E0|].
+  destruct (all_some (map (find_inv v) (o_cols o))) as [cols|]; [|discriminate].
+  exists cols. split; [reflexivity|].
+  destruct (_ ++ _) eqn:E in H; [|discriminate]. clear H.
+  apply clause_nil in E as [H2 E]. apply clause_nil in E as [H3 E]. apply clause_nil in E as [H4 E].
+  apply clause_nil in E as [H5 E]. apply clause_nil in E as [H6 E]. apply clause_nil in E as [H7 E].
+  assert (H8 : tree_ok (spec_tree v) (o_tree o) = true) by (destruct (tree_ok _ _); [reflexivity|discriminate]).
+  apply andb_true_iff in H2 as [H2 H2c]. apply andb_true_iff in H2 as [H2a H2b].
+  apply andb_true_iff in H5 as [H5a H5b].
+  repeat split; try assumption.
+  - now apply Nat.eqb_eq.
+  - rewrite forallb_forall in H5b. now apply H5b.
+  - rewrite forallb_forall in H6. now apply H6.
+  - rewrite forallb_forall in H7. apply Nat.leb_le. now apply H7.
 Qed.
